@@ -165,6 +165,22 @@ Proof.
   split_ifs; try reflexivity; try (exfalso; lia); f_equal; nia.
 Qed.
 
+(* the unguarded statement: holds since the operator truncates (fix 0b983d1); same script *)
+Lemma intdiv_ok : forall a b, app2 "//" a b = iso_intdiv a b.
+Proof.
+  intros a b.
+  cbv -[Z.div Z.modulo Z.eqb Z.ltb Z.leb Z.gtb Z.geb Z.quot Z.opp Z.add Z.sub Z.mul].
+  split_ifs; try reflexivity; try (exfalso; lia); f_equal; nia.
+Qed.
+
+(* an ill-typed (float) operand of an integer-only operator is a problog ArithmeticError
+   (compute_function maps TypeError since fix 168ee04) *)
+Lemma int_only_operator_on_float_is_problog_error : forall q b,
+  is_m (EApp2 "/\" (ENum (VFlt q)) (ENum (VInt b))) = OArithErr
+  /\ is_m (EApp2 "<<" (ENum (VInt b)) (ENum (VFlt q))) = OArithErr
+  /\ is_m (EApp1 "\" (ENum (VFlt q))) = OArithErr.
+Proof. intros. repeat split; reflexivity. Qed.
+
 (* division by zero is reported as problog ArithmeticError by every division-like operator *)
 Lemma zero_divisor_is_problog_error :
   forall a, is_m (EApp2 "//" (ENum (VInt a)) (ENum (VInt 0))) = OArithErr
